@@ -820,6 +820,21 @@ pub fn gen_txn(r: &mut Rng, date: i32, b: &Bias, bal: &mut Bal, formats: &BTreeM
                 bv = (oc, if val.is_sign_negative() { -l.dec().abs() } else { l.dec().abs() });
             }
         }
+        // the pure statement-check form: a commodity-less `0` amount carrying an assertion
+        if p.cost.is_none() && p.lot.is_none() && r.chance(b.assert_pct, 800) {
+            p.amount = Some(VE::Amt(Lit { m: 0, scale: 0, comm: None, grouped: false }));
+            let held: Vec<(usize, Decimal)> = local.get(&account).map(|m| m.iter().map(|(c, v)| (*c, *v)).collect()).unwrap_or_default();
+            let wrong = r.chance(b.wrong_assert_pct.max(20), 100);
+            p.balance = Some(if held.is_empty() || r.chance(1, 3) {
+                // bare `= 0` (true only when the account is empty)
+                VE::Amt(Lit { m: 0, scale: 0, comm: None, grouped: false })
+            } else {
+                let (c, v) = held[r.below(held.len() as u64) as usize];
+                plain_lit(if wrong { v + Decimal::new(r.range(1, 3), 0) } else { v }, c)
+            });
+            posts.push(p);
+            continue;
+        }
         *residual.entry(bv.0).or_insert(Decimal::ZERO) += bv.1;
         add_to(&mut local, account, comm, val);
         if r.chance(b.assert_pct, 100) {
